@@ -21,12 +21,28 @@ func merge(e Event, extra Event) Event {
 	return e
 }
 
+var byEntropyN int
+var entropyArena = make([]byte, 64+24)
+
 // recByEntropy calls NewMnemonicByEntropy and records the call.
 func recByEntropy(ent []byte, lang int64, extra Event) (out string, err error) {
+	lang = narrow(lang)
 	// The argument is handed over as callers often hold it: a prefix of a larger buffer (spare capacity
 	// behind it).  "ent_same" covers the whole backing array, not only the first len bytes.
 	var backing, arg []byte
-	if ent != nil {
+	if !concMode {
+		byEntropyN++
+	}
+	if ent != nil && len(ent) <= 64 && byEntropyN%2 == 0 && !concMode {
+		// every other call hands over the SAME caller-owned buffer, refilled in place (a key-generation loop that
+		// reuses one buffer): a library that remembers the slice instead of its contents sees its memory change
+		backing = entropyArena[:len(ent)+24]
+		copy(backing, ent)
+		for i := len(ent); i < len(backing); i++ {
+			backing[i] = byte(0xA5 ^ i)
+		}
+		arg = backing[:len(ent)]
+	} else if ent != nil {
 		backing = make([]byte, len(ent)+24)
 		copy(backing, ent)
 		for i := len(ent); i < len(backing); i++ {
@@ -57,6 +73,7 @@ func recByEntropy(ent []byte, lang int64, extra Event) (out string, err error) {
 
 // recCheck calls CheckMnemonic and IsMnemonicValid on the same input.
 func recCheck(in string, lang int64, extra Event) (err error) {
+	lang = narrow(lang)
 	var valid bool
 	in = strings.Clone(in) // a heap copy the library could (wrongly) write through; compared after the call
 	before := []byte(in)
@@ -80,6 +97,7 @@ func recCheck(in string, lang int64, extra Event) (err error) {
 
 // recCheckLen: like recCheck for huge inputs - the input is described, not logged.
 func recCheckHuge(in string, desc string, lang int64) {
+	lang = narrow(lang)
 	var err error
 	var valid bool
 	o := guarded(func() {
@@ -202,6 +220,7 @@ func recheckSeeds() {
 }
 
 func recString(n int64, extra Event) (s string) {
+	n = narrow(n)
 	o := guarded(func() { s = bip39.Language(n).String() })
 	emit(merge(o.into(Event{"op": "String", "n": bigRec(n), "out": units(s)}), extra))
 	keepString(s)
@@ -371,6 +390,7 @@ func wrapSource(s *scriptReader, how string) io.Reader {
 
 // recNewMnemonic: Call event, the call (Read events come from the source), Return event.
 func recNewMnemonic(n int64, lang int64, extra Event) (out string, err error) {
+	n, lang = narrow(n), narrow(lang)
 	emit(merge(Event{"op": "NewMnemonicCall", "n": bigRec(n), "lang": langField(lang)}, extra))
 	o := guarded(func() { out, err = bip39.NewMnemonic(int(n), bip39.Language(lang)) })
 	e := Event{"op": "NewMnemonic", "n": bigRec(n), "lang": langField(lang), "out": units(out), "err": errRec(err), "errid": errID(err)}
